@@ -95,6 +95,12 @@ A1 == Cat(A0, Cat(AUn(A0), AB(A0, A0)))
 A2 == Cat(A1, Cat(AUn(A1), Cat(AB(A1, A0), AB(A0, A1))))
 AsgBodies == IF Depth = 2 THEN A2 ELSE A1
 AsgGrammars == Map1(AsgBodies, LAMBDA e : G(<<Ru("M", e)>>))
+\* an ordered choice of assignments followed or preceded by a further assignment, an optional, a repetition
+A0s == << A0[1], A0[2], A0[3], A0[4] >>
+AAlt == Map2(A0s, A0s, LAMBDA p, q : Al(<<p, q>>))
+Asg2Bodies == Flat(<< Map2(AAlt, A0s, LAMBDA p, q : Sq(<<p, q>>)), Map2(A0s, AAlt, LAMBDA p, q : Sq(<<p, q>>)),
+                      Map2(AAlt, A0s, LAMBDA p, q : Sq(<<Op(p), q>>)), Map2(AAlt, A0s, LAMBDA p, q : Un(<<p, q>>, NoSep, FALSE)) >>)
+Asg2Grammars == Map1(Asg2Bodies, LAMBDA e : G(<<Ru("M", e)>>))
 
 \* rule kinds: M over references to A (common), B (match, two parts), C (abstract: A | 'b' A | B), K (single-match rule)
 KA == Ru("A", As("v", "=", Rf("INT"), NoSep, FALSE))
@@ -138,6 +144,7 @@ OptGrammars == Map1(OptBodies, LAMBDA e : G(<<Ru("M", e), MN, OS, MP, MS>>))
 Grammars == CASE Family = "ops" -> OpsGrammars
               [] Family = "opts" -> OptGrammars
               [] Family = "asg" -> AsgGrammars
+              [] Family = "asg2" -> Asg2Grammars
               [] Family = "kinds" -> KindGrammars
               [] Family = "mods" -> ModGrammars
               [] Family \in {"icase", "kwd"} -> LitGrammars
@@ -151,6 +158,7 @@ Strings(A, n) == IF n = 0 THEN << <<>> >>
                       IN P \o Map2(L, A, LAMBDA s, ch : Append(s, ch))
 Inputs == CASE Family = "ops" -> Strings(<<a, b, SP>>, 4)
             [] Family = "asg" -> Strings(<<a, b, 49, SP, 44>>, 4)
+            [] Family = "asg2" -> Strings(<<a, b, 49, 48, SP>>, 4)
             [] Family = "kinds" -> Strings(<<a, b, 49, SP>>, 5)
             [] Family = "mods" -> Strings(<<a, b, SP, NL, 35>>, 5)
             [] Family = "opts" -> Strings(<<a, b, 49, x, SP, TAB>>, 3)
@@ -260,7 +268,7 @@ CountVals(evs, i) == IF i > Len(evs) THEN 0
                            THEN Len(SelectSeq(evs[i].kids, LAMBDA k : ~(k.t = "leaf" /\ k.sep)))
                            ELSE 1) + CountVals(evs, i+1)
 NoValueLost ==
-  Family = "asg" =>
+  Family \in {"asg", "asg2"} =>
   \A i \in 1..Len(Inputs) :
     LET s == Inputs[i]  E == Env(Cfg, {}, s)  r == ParseAll(E) IN
     r.ok => \A o \in SeqSet(ObjsSeq(r.ns, 1)) :
